@@ -62,6 +62,16 @@ func c14Case(rng *rand.Rand) cliCase {
 		progs := []string{"{ print $.a; print 1 / 0 }", "BEGIN { print 'x' } { print $ } END { print y.z() }", "{ print } END { print 'done' ", "{ print $.list[-9] }", "BEGIN { exit } { print }", "{ print $ }"}
 		ins := [][]byte{[]byte(`{"a": 1, "list": [1]}`), []byte(`{"a": 1} {"a": `), []byte(`[1, 2] ] [3]`), []byte(""), []byte("[1]\n[2]\n")}
 		return cliCase{prog: progs[rng.IntN(len(progs))], inputs: [][]byte{ins[rng.IntN(len(ins))]}, noFile: true, kind: "failing", failing: true}
+	case 6:
+		// program texts whose literals hold raw line ends, tabs and other control bytes, and CRLF between statements
+		progs := []string{
+			"{ print 'a\r\nb'.length(), 'x\r\ny' }\r\n{ print \"tab\there\" }\r\n",
+			"BEGIN { s = 'line1\r\nline2\r\n'; print s.length(); printf('%s|', s) }\r\n{ print $.s + '\r\n' + $.n }",
+			"# comment\r\n{ print ';\r\n'.length(), $.s ~ /a\r\nb/, 'q\rr', 'v\n\rw' }\r\nEND { print 'e\x0bf\x0cg' }",
+			"{ $.note = 'first\r\nsecond' }",
+			"{\r\n\tprint 'indented\r\n\tcontinuation',\r\n\t\t$.n\r\n}\r\n",
+		}
+		return cliCase{prog: progs[rng.IntN(len(progs))], inputs: [][]byte{c14Doc(rng)}, noFile: true, kind: "raw-line-ends-in-literals"}
 	case 5:
 		// JSONL and several files
 		var ins [][]byte
@@ -474,7 +484,7 @@ func c14ErrorPaths(c *Case) {
 func init() {
 	register(&Prop{
 		ID: "C14", Level: "exploration",
-		Rule: "each case is a (program, inputs, selectors) triple from the pools of C02/C07/C09 plus failing programs, malformed inputs, JSONL and root-modifying programs, run in one cell of the 54-cell configuration matrix {inline, -f} x {stdin, 1 file, 2-3 files} x {0, 1, 2 -r} x {no -o, -o -, -o FILE} (cells are visited round-robin by case index). Relations checked on the real binary: (R1) stdout, -o bytes and exit class equal the library's result on the same tree (files and selectors in the same order; -o with several inputs refused); (R2) -f FILE == inline; (R3) stdin == the same bytes in a file for programs that do not mention $file; (R4) the bytes `-o -` prints after the program's own output are exactly what `-o FILE` writes; (R5) `-r E` == `BEGINFILE { $ = E }` for side-effect-free selectors (members present / missing / out of range, method calls, literals) and programs that modify $ only in pattern rules, including what -o writes, also over several files and several values per input; (R6) two selectors print what each prints alone, one after the other, and -o writes what the last alone writes; (R7) for programs without state across values, a run over several files / several values per input / several selectors prints exactly the concatenation of the runs value by value (each processed once, in order). Enumerated: 16 error paths and orderings (missing program / input files, directory as input, unwritable -o, -o with two files, -o without any value, file and selector order, error after output) and strace-injected EIO. Non-trivial = the case produces output or an -o document; distinct by cell+program+inputs+selectors.",
+		Rule: "each case is a (program, inputs, selectors) triple from the pools of C02/C07/C09 plus failing programs, malformed inputs, JSONL, root-modifying programs and program texts with raw CR LF / tab / control bytes inside literals, run in one cell of the 54-cell configuration matrix {inline, -f} x {stdin, 1 file, 2-3 files} x {0, 1, 2 -r} x {no -o, -o -, -o FILE} (cells are visited round-robin by case index). Relations checked on the real binary: (R1) stdout, -o bytes and exit class equal the library's result on the same tree (files and selectors in the same order; -o with several inputs refused); (R2) -f FILE == inline; (R3) stdin == the same bytes in a file for programs that do not mention $file; (R4) the bytes `-o -` prints after the program's own output are exactly what `-o FILE` writes; (R5) `-r E` == `BEGINFILE { $ = E }` for side-effect-free selectors (members present / missing / out of range, method calls, literals) and programs that modify $ only in pattern rules, including what -o writes, also over several files and several values per input; (R6) two selectors print what each prints alone, one after the other, and -o writes what the last alone writes; (R7) for programs without state across values, a run over several files / several values per input / several selectors prints exactly the concatenation of the runs value by value (each processed once, in order). Enumerated: 16 error paths and orderings (missing program / input files, directory as input, unwritable -o, -o with two files, -o without any value, file and selector order, error after output) and strace-injected EIO. Non-trivial = the case produces output or an -o document; distinct by cell+program+inputs+selectors.",
 		NumCases: func(tier string) int {
 			if tier == "thorough" {
 				return 1 + 54*400
